@@ -646,6 +646,7 @@ func ioWorker(tier string, master uint64, from, to int, maxWall time.Duration, r
 	seen := map[uint64]bool{}
 	xcheck := 0
 	xmismatch := ""
+	xfaults := map[string]int{}
 	for idx := from; idx < to; idx++ {
 		if maxWall > 0 && time.Since(start) > maxWall {
 			st.Truncated = true
@@ -681,6 +682,14 @@ func ioWorker(tier string, master uint64, from, to int, maxWall time.Duration, r
 					xmismatch = m
 				}
 				xcheck++
+			}
+			if jpgoBin != "" && stage == "xcheck" && xmismatch == "" {
+				if m, kind := crossCheckFault(jpgoBin, c, xcheck+len(xfaults)+ci); kind != "" {
+					xfaults[kind]++
+					if m != "" {
+						xmismatch = m
+					}
+				}
 			}
 			var fresh *Violation
 			for i := range rep.Violations {
@@ -746,6 +755,16 @@ func ioWorker(tier string, master uint64, from, to int, maxWall time.Duration, r
 	st.Probes["input_bytes"] = s.bytes
 	st.Probes["hard_fault_not_noticed_but_output_correct"] = uint64(s.faultIgnoredButCorrect)
 	st.Probes["real_binary_cross_checks"] = uint64(xcheck)
+	if stage == "xcheck" {
+		st.Faults["real_binary_EIO_after_k_bytes_via_pty"] = uint64(xfaults["pty"])
+		st.Faults["real_binary_stdin_is_a_directory"] = uint64(xfaults["stdin-is-directory"])
+		st.Faults["real_binary_input_file_missing"] = uint64(xfaults["notexist"])
+		st.Faults["real_binary_input_file_is_a_directory"] = uint64(xfaults["isdir"])
+		st.Faults["real_binary_stdout_is_dev_full"] = uint64(xfaults["devfull"])
+		if ptyUnavailable {
+			st.Probes["pty_unavailable"] = 1
+		}
+	}
 	st.Ops["cases"] = s.cases
 	return st
 }
